@@ -5,6 +5,7 @@ import (
 	"errors"
 	"fmt"
 	"net/http"
+	"runtime"
 	"slices"
 	"sort"
 	"strings"
@@ -212,6 +213,7 @@ type managedEnd struct {
 }
 
 type managedOutcome struct {
+	exited   bool
 	err      error
 	panicked any
 }
@@ -442,6 +444,8 @@ func (c *concrete) apply(op projOp) (res callResult) {
 							return errSentinel
 						case "panic":
 							panic(panicSentinel{42})
+						case "goexit":
+							runtime.Goexit()
 						}
 						return nil
 					}
@@ -455,11 +459,13 @@ func (c *concrete) apply(op projOp) (res callResult) {
 					}
 					t.done <- out
 				}()
+				out.exited = true // stays so when the goroutine leaves through runtime.Goexit
 				if write {
 					out.err = c.r.Updates(fn)
 				} else {
 					out.err = c.r.View(fn)
 				}
+				out.exited = false
 			}()
 			select {
 			case t.txn = <-started:
@@ -510,9 +516,9 @@ func (c *concrete) apply(op projOp) (res callResult) {
 		t := c.txns[op.T]
 		t.onTxn(func(x *fox.Txn) { x.Abort() })
 		return callResult{Err: "ok"}
-	case name == "FnReturn" || name == "FnError" || name == "FnPanic":
+	case name == "FnReturn" || name == "FnError" || name == "FnPanic" || name == "FnGoexit":
 		t := c.txns[op.T]
-		kind := map[string]string{"FnReturn": "return", "FnError": "error", "FnPanic": "panic"}[name]
+		kind := map[string]string{"FnReturn": "return", "FnError": "error", "FnPanic": "panic", "FnGoexit": "goexit"}[name]
 		t.end <- managedEnd{kind: kind}
 		var out managedOutcome
 		select {
@@ -537,6 +543,10 @@ func (c *concrete) apply(op projOp) (res callResult) {
 		case "FnPanic":
 			if out.panicked != (panicSentinel{42}) {
 				r.Note = fmt.Sprintf("function panicked but the wrapper gave err=%v panic=%v", out.err, out.panicked)
+			}
+		case "FnGoexit":
+			if !out.exited || out.panicked != nil {
+				r.Note = fmt.Sprintf("the goroutine left through runtime.Goexit but the wrapper gave err=%v panic=%v", out.err, out.panicked)
 			}
 		}
 		if !t.write {
